@@ -260,8 +260,13 @@ def _hmac_digest(key, msg, digest):
 
 def _pbkdf2(hash_name, password, salt, iterations, dklen=None):
     pw, sa = password, salt
-    if isinstance(pw, OpaqueBytes) or isinstance(sa, OpaqueBytes):
-        raise Unsupported("opaque text reached pbkdf2 outside the C03 model")
+    from . import text as _text
+    if isinstance(pw, _text.SxOpaqueBytes) or isinstance(sa, _text.SxOpaqueBytes):
+        if is_sym(iterations) or is_sym(dklen) or not isinstance(hash_name, str):
+            raise Unsupported("symbolic pbkdf2 parameters")
+        r = _text.pbkdf2_opaque(hash_name, pw, sa, iterations, dklen)
+        _log("pbkdf2_opaque", hash_name, pw, sa, iterations, dklen, r)
+        return r
     if is_sym(iterations) or is_sym(dklen):
         raise Unsupported("symbolic pbkdf2 parameters")
     out = dklen if dklen is not None else hashlib.new(hash_name).digest_size
